@@ -165,6 +165,7 @@ func init() {
 			ctl := sampleCtl(r)
 			ctl.Acme = true // brings the leadership seam in: the leader subscriber is a producer of reconciliations too
 			rc := &RunConfig{Property: "C14", Profile: "handoff-l2", Seed: seed, Ctl: ctl, Lagfree: r.IntN(2) == 0, MidSched: r.IntN(2) == 0}
+
 			w := map[string]int{"class_change": 12, "ing_create": 6, "ing_update": 10, "ing_delete": 4, "ing_ann": 6, "svc_update": 4, "ep_scale": 8, "secret_rotate": 4, "global_change": 4, "renotify": 3, "advance": 4}
 			rc.World, rc.Ops = GenerateRun(seed, GenOptions{Sparse: r.IntN(2) == 0, ExcludeIngressKeys: alwaysExcludedIngressKeys, MinOps: mn, MaxOps: mx,
 				QuiesceEvery: pickInt(r, 4, 8), KeysPerRun: 4, W: w})
